@@ -178,20 +178,39 @@ fn jerr(e: jbk::Error) -> String {
 }
 
 pub fn dump_container(c: &jbk::reader::Container) -> Result<Vec<String>, String> {
+    dump_container_with(c, false)
+}
+
+/// the same dump obtained through the typed property builders only (no `AnyBuilder`)
+pub fn dump_container_typed(c: &jbk::reader::Container) -> Result<Vec<String>, String> {
+    dump_container_with(c, true)
+}
+
+fn dump_container_with(c: &jbk::reader::Container, typed_only: bool) -> Result<Vec<String>, String> {
     let mut out = vec![];
     let index = c.get_index_for_name("main").map_err(jerr)?.ok_or("noindex")?;
-    let builder = AnyBuilder::new(
-        index.get_store(c.get_entry_storage()).map_err(jerr)?,
-        c.get_value_storage().as_ref(),
-    )
-    .map_err(jerr)?;
+    let builder = if typed_only {
+        None
+    } else {
+        Some(AnyBuilder::new(index.get_store(c.get_entry_storage()).map_err(jerr)?, c.get_value_storage().as_ref()).map_err(jerr)?)
+    };
     let count = index.count().into_u32();
     out.push(format!("count {}", count));
+    // second read path: the typed property builders a schema-specific reader uses
+    // (`Property::as_builder`, what `layout_builder!` expands to)
+    let typed = TypedBuilder::new(index.get_store(c.get_entry_storage()).map_err(jerr)?, c.get_value_storage().as_ref())?;
     for i in 0..count {
-        let e = index.get_entry(&builder, jbk::EntryIdx::from(i)).map_err(jerr)?.ok_or("noentry")?;
-        let name = e.get_value("name").map_err(jerr)?.ok_or("noname")?.as_vec().map_err(jerr)?;
-        let num = e.get_value("num").map_err(jerr)?.ok_or("nonum")?.as_unsigned();
-        let addr = e.get_value("content").map_err(jerr)?.ok_or("nocontent")?.as_content();
+        let (tname, tnum, taddr) = index.get_entry(&typed, jbk::EntryIdx::from(i)).map_err(jerr)?.ok_or("noentry-typed")?;
+        let (name, num, addr) = match &builder {
+            Some(builder) => {
+                let e = index.get_entry(builder, jbk::EntryIdx::from(i)).map_err(jerr)?.ok_or("noentry")?;
+                let name = e.get_value("name").map_err(jerr)?.ok_or("noname")?.as_vec().map_err(jerr)?;
+                let num = e.get_value("num").map_err(jerr)?.ok_or("nonum")?.as_unsigned();
+                let addr = e.get_value("content").map_err(jerr)?.ok_or("nocontent")?.as_content();
+                (name[..].to_vec(), num, addr)
+            }
+            None => (tname.clone(), tnum, taddr),
+        };
         let bytes = match c.get_bytes(addr).map_err(jerr)? {
             None => "nopack".to_string(),
             Some(jbk::reader::MayMissPack::MISSING(pi)) => format!("missing:{}:{}", crate::out::hex(pi.uuid.as_bytes()), pi.pack_location.as_str()),
@@ -203,17 +222,63 @@ pub fn dump_container(c: &jbk::reader::Container) -> Result<Vec<String>, String>
                 format!("{}:{:016x}", v.len(), crate::out::fnv(&v))
             }
         };
+        // both read paths must tell the same thing; a difference shows in the dump
+        let typed_note = if tname[..] == name[..] && tnum == num && taddr == addr {
+            String::new()
+        } else {
+            format!(" typed-builders-read name={} num={} addr={}:{}", crate::out::hex(&tname), tnum, taddr.pack_id.into_u16(), taddr.content_id.into_u32())
+        };
         out.push(format!(
-            "e{} name={} num={} addr={}:{} data={}",
+            "e{} name={} num={} addr={}:{} data={}{}",
             i,
             crate::out::hex(&name),
             num,
             addr.pack_id.into_u16(),
             addr.content_id.into_u32(),
-            bytes
+            bytes,
+            typed_note
         ));
     }
     Ok(out)
+}
+
+/// schema-specific reader of the harness containers (name: array, num: unsigned, content: address)
+struct TypedBuilder {
+    store: jbk::reader::EntryStore,
+    name: jbk::reader::builder::ArrayProperty,
+    num: jbk::reader::builder::IntProperty,
+    content: jbk::reader::builder::ContentProperty,
+}
+
+impl TypedBuilder {
+    fn new(store: jbk::reader::EntryStore, vs: &jbk::reader::ValueStorage) -> Result<Self, String> {
+        let (name, num, content) = {
+            let layout = store.layout();
+            let name = layout.common.get("name").ok_or("typed:noname")?.as_builder(vs).map_err(jerr)?.ok_or("typed:name-kind")?;
+            let num = layout.common.get("num").ok_or("typed:nonum")?.as_builder(vs).map_err(jerr)?.ok_or("typed:num-kind")?;
+            let content = layout.common.get("content").ok_or("typed:nocontent")?.as_builder(vs).map_err(jerr)?.ok_or("typed:content-kind")?;
+            (name, num, content)
+        };
+        Ok(TypedBuilder { store, name, num, content })
+    }
+}
+
+impl jbk::reader::builder::BuilderTrait for TypedBuilder {
+    type Entry = (Vec<u8>, u64, jbk::ContentAddress);
+    type Error = jbk::Error;
+
+    fn create_entry(&self, idx: jbk::EntryIdx) -> jbk::Result<Option<Self::Entry>> {
+        use jbk::reader::builder::PropertyBuilderTrait;
+        let reader = match self.store.get_entry_reader(idx) {
+            Some(r) => r,
+            None => return Ok(None),
+        };
+        let mut name = jbk::SmallBytes::new();
+        self.name.create(&reader)?.resolve_to_vec(&mut name)?;
+        let num = self.num.create(&reader)?;
+        let content = self.content.create(&reader)?;
+        Ok(Some((name.to_vec(), num, content)))
+    }
 }
 
 fn dump_inner(path: &Path) -> Result<Vec<String>, String> {
